@@ -21,6 +21,8 @@ from ..common import enc, ask, call
 LEVEL = "proof"
 TRUSTED = [py2lean.trusted_note("pnorm")]
 PROP_FILES = ["PersimVerif/Props/C10.lean", py2lean.prop_file("pnorm")]
+# the bottleneck clause about what the MODELS return (C10 o C09 o C03 against C01)
+PROP_FILES += ["PersimVerif/Props/C10Model.lean"]
 RULE = ("landscapes built by the real classes from generated diagrams (1-7 bars; lattice/half/eighth/decimal/uniform "
         "coordinates, whole diagram rescaled by 2^k, k in {-40,-30,-20,-3,0,3,20,30}; duplicates 15%; diagonal bars in a flagged "
         "sub-stream) as single / negated / difference / P-P / random linear combinations of 2-3 landscapes (exact and "
@@ -49,7 +51,9 @@ CORE_THEOREMS = ["segment_integral", "pnorm_pow_eq_integral", "pnorm_eq_root", "
                  "pnorm_triangle", "segment_integral_real", "pnorm_real_pow_eq_integral", "pNormMethod_real", "pnorm_real_homogeneous",
                  "pnorm_real_triangle", "pnorm_pow_eq_integral_wf", "pnorm_real_pow_eq_integral_wf", "pNormMethod_real_wf",
                  "supNormExact_eq_wf", "pnorm_triangle_wf", "pnorm_real_triangle_wf", "pnorm_homogeneous_wf", "landscape_stability",
-                 "landscape_sup_le_bottleneck"]
+                 "landscape_sup_le_bottleneck",
+                 # Props/C10Model.lean: the same clause for what the models of PersLandscapeExact, P - Q, sup_norm and bottleneck return
+                 "model_sub_landscapes_pointwise", "model_sup_norm_sub_eq_sup", "model_sup_norm_sub_le_model_bottleneck"]
 TOL = 1e-9
 EPS = 2.220446049250313e-16
 
@@ -399,7 +403,7 @@ def pre_build(ctx):
 
 def run(ctx):
     py2lean.report_broken(ctx, PROP_FILES)
-    corethm.record(ctx, CORE_THEOREMS, ["PersimVerif/Props/C10.lean"])
+    corethm.record(ctx, CORE_THEOREMS, ["PersimVerif/Props/C10.lean", "PersimVerif/Props/C10Model.lean"])
     r = ctx.rng
     ex, ap, aux = _mods()
     ctx.extra["source_digest"] = {
@@ -987,7 +991,11 @@ MANIFEST = {
             "represents f + g; base.py rejects exactly p < -1 and -1 < p < 0; the pre-fix formula is refuted by norm_num on "
             "[(0,0),(1,1),(3,-1),(4,0)] (2/3 instead of 4/3). Stability is proved for the mathematical landscape: a partial "
             "matching of cost <= eps gives |lambda_k(t) - lambda'_k(t)| <= eps for all k, t, hence sup-norm distance <= "
-            "bottleneck distance. Guards: the statements are proved for strictly increasing abscissae and again (`..._wf`) for the "
+            "bottleneck distance. Props/C10Model.lean (12 theorems, 3 core) composes this with C03, C09 and C01 into the clause about what the "
+            "models return: if the model of PersLandscapeExact returns on dgms[h] and dgms'[h] (positive-length finite bars, a trailing "
+            "infinite bar allowed) with the repeated-bar shortcut fired on neither, the model of P - Q returns R, the model of sup_norm on R "
+            "returns m and the model of bottleneck(dgms[h], dgms'[h]) returns d (any oracle returning maximum matchings), then m <= d "
+            "(model_sup_norm_sub_le_model_bottleneck; R's depth-k function is lambda_k - lambda'_k and m is the supremum of its absolute value). Guards: the statements are proved for strictly increasing abscissae and again (`..._wf`) for the "
             "class C09's operations produce and preserve (wfDepth: zero end ordinates, a zero-width step only between two copies of "
             "one point) - this includes the depth [[b,0],[b,0],[b,0]] of a zero-length bar and the single point [(x,0)], where a "
             "zero-width flat segment contributes 0 and the sup norm needs no '2 <= length' hypothesis. "
@@ -1004,8 +1012,8 @@ MANIFEST = {
     "note": "Theorems are exact-arithmetic (reals). [T] only: behaviour under float rounding — finiteness, accuracy and the laws "
             "on the real code (law stream + quadrature oracle; this is what exposed the near-flat cancellation repaired by "
             "b342827); the Float model's expm1 is Kahan's exp/log formula (core Lean has no expm1), np.expm1/np.log/C pow are "
-            "trusted to agree with it to 1e-9. The stability theorem is about PL.landscape; its transfer to the code's sweep "
-            "rests on C03/C09 and is additionally tested against persim.bottleneck on every case (failures where the C03 repeated-bar "
+            "trusted to agree with it to 1e-9. The stability theorem is about PL.landscape; its transfer to the models of the code's sweep, arithmetic, "
+            "sup norm and bottleneck routine is the theorem model_sup_norm_sub_le_model_bottleneck (hypothesis: shortcut not fired) and it is additionally tested against persim.bottleneck on every case (failures where the C03 repeated-bar "
             "shortcut fired are the known finding: counted and reported as KNOWN-FINDING, not skipped). Grid landscapes: np.linspace is passed to the model as data (strictly increasing "
             "grid is C08's contract). Trusted: Lean kernel + Mathlib, axioms propext/Classical.choice/Quot.sound; the "
             "correspondence harness and the compiled driver executable (compiled by Lean's compiler, not checked by the kernel). Observation outside the property (p >= 1): p_norm(-1) returns NaN instead of the sup norm, "
